@@ -26,8 +26,9 @@ requires a silent no-op); ticks are never re-entered from inside a tick.
 re-entrant Cooperator.stop()/start() from a callback fired by Cooperator.stop() and operations on
 tasks that stop() has not reached yet are transient don't-cares; a Deferred yielded by a task that
 was completed during that very next() is not owned by the Cooperator (its final state is not checked).
-Genuine defects on the unchanged tree (narrow keys, see /verif/findings/C11-*.md):
-  * `cooperator-stop-skips-tasks`: Cooperator.stop() mutates the list it iterates; the tasks it
+Genuine defects found (narrow keys, see /verif/findings/C11-*.md):
+  * `cooperator-stop-skips-tasks` (fixed in /repo by e348168; still detected, see
+    mutants/C11/REVERSE-FIX-*.patch): Cooperator.stop() mutates the list it iterates; the tasks it
     leaves behind are marked orphaned and ignored afterwards (an exception escaping the same tick is
     attributed to it) so that other breaks of the property keep their own keys;
   * `completed-inside-own-next`: a task completed (stop / Cooperator.stop) during its own next()
